@@ -201,6 +201,95 @@ async def _scenario(seed: int) -> list[dict[str, Any]]:
     return out
 
 
+async def _real_listener_scenario(seed: int) -> list[dict[str, Any]]:
+    """The real asyncio UDP listener adapter over loopback: datagrams that arrive before serve() is awaited, and after."""
+    import socket
+
+    import easynetwork.lowlevel.api_async.servers.datagram as dg
+    from easynetwork.lowlevel.api_async.backend._asyncio.backend import AsyncIOBackend
+    from easynetwork.protocol import DatagramProtocol
+    from easynetwork.serializers.json import JSONSerializer
+
+    rng = random.Random(seed)
+    backend = AsyncIOBackend()
+    listeners = await backend.create_udp_listeners("127.0.0.1", 0)
+    listener = listeners[0]
+    from easynetwork.lowlevel.socket import INETSocketAttribute
+
+    server_addr = listener.extra(INETSocketAttribute.sockname)
+    nclients = rng.randint(1, 3)
+    socks = []
+    for _ in range(nclients):
+        s = socket.socket(socket.AF_INET, socket.SOCK_DGRAM)
+        s.bind(("127.0.0.1", 0))
+        socks.append(s)
+    addrs = [s.getsockname() for s in socks]
+    before = {a: rng.randint(0, 4) for a in addrs}
+    after = {a: rng.randint(0, 3) for a in addrs}
+    logs: dict[Any, list[dict[str, Any]]] = {a: [] for a in addrs}
+    sent = {a: 0 for a in addrs}
+    finished = [False]
+
+    def log(a: Any, evname: str, id_: int = 0) -> None:
+        if not finished[0] and a in logs:
+            logs[a].append({"ev": evname, "id": id_, "state": "", "qlen": -1})
+
+    async def handler(ctx: Any) -> Any:
+        a = tuple(ctx.address[:2])
+        log(a, "gen_start")
+        try:
+            req = yield None
+            log(a, "gen_got", int(req))
+            await asyncio.sleep(0)
+        finally:
+            log(a, "gen_end")
+
+    def send_one(i: int) -> None:
+        a = addrs[i]
+        sent[a] += 1
+        log(a, "arrive", sent[a])
+        socks[i].sendto(str(sent[a]).encode(), server_addr)
+
+    server = dg.AsyncDatagramServer(listener, DatagramProtocol(JSONSerializer()))
+    order = [i for i, a in enumerate(addrs) for _ in range(before[a])]
+    rng.shuffle(order)
+    for i in order:
+        send_one(i)
+    await asyncio.sleep(0.05)  # let the listener's protocol receive them: serve() is not awaited yet
+    task = asyncio.get_running_loop().create_task(server.serve(handler))
+    await asyncio.sleep(0.02)
+    order = [i for i, a in enumerate(addrs) for _ in range(after[a])]
+    rng.shuffle(order)
+    for i in order:
+        send_one(i)
+        if rng.random() < 0.5:
+            await asyncio.sleep(0.005)
+    await asyncio.sleep(0.1)
+    out = []
+    for a in addrs:
+        logs[a].append({"ev": "end", "id": 0, "state": "", "qlen": -1})
+    finished[0] = True
+    task.cancel()
+    try:
+        await task
+    except BaseException:  # noqa: BLE001
+        pass
+    await server.aclose()
+    for s in socks:
+        s.close()
+    for a in addrs:
+        if sent[a] == 0:
+            continue
+        out.append(
+            {
+                "par": {"n": sent[a], "plan": [1], "lockyields": True, "timeouts": False, "aftertimeout": "return"},
+                "events": traces.uniform(logs[a], EVD),
+                "meta": f"real UDP listener seed={seed} addr={a} before_serve={before[a]} after={after[a]}",
+            }
+        )
+    return out
+
+
 def run(chk: Check) -> None:
     quick = chk.tier == "quick"
     chk.rule = (
@@ -213,6 +302,8 @@ def run(chk: Check) -> None:
     rec: list[dict[str, Any]] = []
     for i in range(400 if quick else 4000):
         rec += vloop.run(lambda: _scenario(chk.seed * 7919 + i))
+    for i in range(12 if quick else 300):
+        rec += asyncio.run(_real_listener_scenario(chk.seed * 13 + i))
     slim = [{"par": t["par"], "events": t["events"]} for t in rec]
     res = traces.validate("DatagramServerTrace", slim, cfg_text=TRACE_CFG, parallel=12, chunk=300)
     chk.traces += len(rec)
